@@ -312,3 +312,30 @@ Definition run_agrees (n : nat) (assoc : list (nat * list name)) (specs : list s
            (expected : list event) (final : pstate) : bool :=
   let r := run (mk_dirs n assoc) (load init_pstate) specs in
   events_eqb (observe watch (fst r)) expected && pstate_eqb (ms_p (snd r)) final.
+
+(* Histories in which the set of bucket directories changes while the crawler is
+   idle between two cycles: a list of epochs, each with its directory contents
+   and its slices.  The crawler state (including the one-entry listing cache of
+   the same crawler object) is carried from one epoch to the next. *)
+Fixpoint run_epochs (m : mstate) (eps : list (list (list name) * list slice_spec)) : list event * mstate :=
+  match eps with
+  | [] => ([], m)
+  | (dirs, specs) :: r =>
+      let '(e1, m1) := run dirs m specs in
+      let '(e2, m2) := run_epochs m1 r in
+      (e1 ++ e2, m2)
+  end.
+
+(* the crawler is idle (between cycles) at the end of every epoch *)
+Fixpoint epochs_end_idle (m : mstate) (eps : list (list (list name) * list slice_spec)) : Prop :=
+  match eps with
+  | [] => True
+  | (dirs, specs) :: r =>
+      let m1 := snd (run dirs m specs) in
+      ps_current (ms_p m1) = None /\ epochs_end_idle m1 r
+  end.
+
+Definition epochs_agree (n : nat) (eps : list (list (nat * list name) * list slice_spec)) (watch : list N)
+           (expected : list event) (final : pstate) : bool :=
+  let r := run_epochs (load init_pstate) (map (fun e => (mk_dirs n (fst e), snd e)) eps) in
+  events_eqb (observe watch (fst r)) expected && pstate_eqb (ms_p (snd r)) final.
